@@ -9,7 +9,7 @@ TRUSTED = [
     "(mewmew/float IsExact16/32/64 + strconv shortest formatting), float rounding of non-float double patterns, non-canonical x86_fp80 encodings, ppc_fp128 pairs",
     "Go harness ops_float.go (bits recomputed by an independent route; decimal literals checked with math/big.Rat)",
 ]
-ASSUMPTIONS = ["hex literals have the digit counts LLVM prints (16 for 0x, 4 for 0xH, 20 for 0xK, 32 for 0xL/0xM)"]
+ASSUMPTIONS = ["the bit-pattern model takes hex literals at the digit counts LLVM prints (16 for 0x, 4 for 0xH, 20 for 0xK, 32 for 0xL/0xM); shorter literals are tied to those by the `flt.short` oracle (LLVM's lexer split)"]
 RULE = ("bit patterns per kind: all 2^16 half patterns in thorough; for double/float/fp128/x86_fp80 every (sign, exponent class) x boundary fractions (0, 1, max, msb, "
         "alternating) plus random patterns; float patterns with zero low 29 bits; NaNs quiet/signalling with payloads; exact decimal literals (k/2^j) for half/float/double; "
         "model and implementation compared on the hexadecimal spelling of the printed literal; the oracle demands identical value after print->parse, identical bits "
@@ -39,6 +39,12 @@ def half_to_double_bits(h):
 def gen(tier, rng, harness=None):
     lines = []
     n = 150 if tier == "quick" else 5000
+    # prefixed hexadecimal literals with FEWER digits than the full width, every length, two digit patterns: read as LLVM's lexer splits them
+    pat = "123456789ABCDEF0FEDCBA9876543210"
+    for k, full in (("half", 4), ("float", 16), ("double", 16), ("x86_fp80", 20), ("fp128", 32), ("ppc_fp128", 32)):
+        for ln in range(1, full):
+            lines.append("!flt.short %s %s" % (k, pat[-ln:]))
+            lines.append("!flt.short %s %s" % (k, pat[:ln]))
     # the legacy 16-digit spelling of half values (and float values are always spelled that way)
     hs = range(1 << 16) if tier == "thorough" else patterns(rng, 5, 10, 3 * n)
     for h in hs:
